@@ -15,25 +15,15 @@ def stable_line(nodes, rec, cg="same"):
     return gen_gaf.record_line(rec, path=path, strand=strand, plen=plen, ps=s, pe=e, cg=c)
 
 
-def view_convert(gfa_text, lines, fmt, gz_gfa=False):
-    """Run `gaftools view --format fmt` on a GAF given as lines. Returns (call result, output lines or None)."""
-    from gaftools.cli import view
+def view_convert(gfa_text, lines, fmt, gz_gfa=False, via="api"):
+    """Run `gaftools view --format fmt` on a GAF given as lines (api call, or through the command line, or with
+    standard output captured). Returns (call result, output lines or None)."""
+    from vf import idx
 
     with core.workdir() as d:
         core.write_text(d + "/g.gfa", gfa_text)
         core.write_text(d + "/in.gaf", "".join(l + "\n" for l in lines))
-        res = core.call(view.run, d + "/in.gaf", gfa=d + "/g.gfa", output=d + "/out.gaf", format=fmt)
-        try:
-            out = core.read_text(d + "/out.gaf")
-        except OSError:
-            out = None
-    if out is not None:
-        if out and not out.endswith("\n"):
-            out_lines = None
-        else:
-            out_lines = out.split("\n")[:-1]
-    else:
-        out_lines = None
+        res, out_lines = idx.run_view(d, d + "/in.gaf", d + "/g.gfa", d + "/out.gaf", fmt=fmt, via=via)
     return res, out_lines
 
 
